@@ -3,10 +3,6 @@ From Coq Require Import List Bool.
 From KV.Wait Require Import Ir GenWait Model Explore Systems WaitLemmas.
 Import ListNotations.
 
-Lemma accept_tm_checked : forall a, let d := sys_tm skel Accepter a in scheck d (tm_inv d) = true.
-Proof. intros []; vm_cast_no_check (eq_refl true). Qed.
-Lemma accept_one_checked : forall a, let d := sys_1 skel Accepter a in scheck d (one_inv Accepter d) = true.
-Proof. intros []; vm_cast_no_check (eq_refl true). Qed.
 Lemma accept_rearm_checked : forall a, let d := sys_rearm skel Accepter a in scheck d (rearm_inv d) = true.
 Proof. intros []; vm_cast_no_check (eq_refl true). Qed.
 
@@ -14,11 +10,35 @@ Proof. intros []; vm_cast_no_check (eq_refl true). Qed.
    incl. clearing, set while the call is parked) and the strong no-early-timeout reading *)
 Lemma accept_oned_checked : forall a, let d := sys_1d skel Accepter a in scheck d (oned_inv d) = true.
 Proof. intros []; vm_cast_no_check (eq_refl true). Qed.
-Lemma accept_full_checked : forall a, let d := sys_1 skel Accepter a in scheck d (fixed_one_inv Accepter d) = true.
+(* the deadline-change broadcast, thread-modular: ONE call against everything the rest of the program can
+   do to it follows every deadline change (change_inv) - hence any number of callers; the same exploration
+   carries the per-call safety bundles (change_tm_inv = [strong_tm_inv; change_inv]) *)
+Lemma accept_change_tm_checked : forall a, let d := sys_tm skel Accepter a in scheck d (change_tm_inv d) = true.
 Proof. intros []; vm_cast_no_check (eq_refl true). Qed.
 Lemma accept_strong_tm_checked : forall a, let d := sys_tm skel Accepter a in scheck d (strong_tm_inv d) = true.
-Proof. intros []; vm_cast_no_check (eq_refl true). Qed.
+Proof.
+  intros a d. apply (scheck_weaken d (change_tm_inv d)); [|apply accept_change_tm_checked].
+  apply inv_and_member. simpl; tauto.
+Qed.
 Lemma accept_strong_one_checked : forall a, let d := sys_1 skel Accepter a in scheck d (strong_one_inv Accepter d) = true.
 Proof. intros []; vm_cast_no_check (eq_refl true). Qed.
 Lemma accept_extend_checked : forall a, let d := sys_extend_n skel Accepter 2 a in scheck d (strong_extend_inv d) = true.
 Proof. intros []; vm_cast_no_check (eq_refl true). Qed.
+
+(* the weaker bundles on the same systems follow from the explorations above (WaitLemmas.scheck_weaken):
+   strong_tm_inv = [tm_inv; ..], strong_one_inv = [fixed_one_inv; ..], fixed_one_inv = [one_inv; ..] *)
+Lemma accept_tm_checked : forall a, let d := sys_tm skel Accepter a in scheck d (tm_inv d) = true.
+Proof.
+  intros a d. apply (scheck_weaken d (strong_tm_inv d)); [|apply accept_strong_tm_checked].
+  apply inv_and_member. simpl; tauto.
+Qed.
+Lemma accept_full_checked : forall a, let d := sys_1 skel Accepter a in scheck d (fixed_one_inv Accepter d) = true.
+Proof.
+  intros a d. apply (scheck_weaken d (strong_one_inv Accepter d)); [|apply accept_strong_one_checked].
+  apply inv_and_member. simpl; tauto.
+Qed.
+Lemma accept_one_checked : forall a, let d := sys_1 skel Accepter a in scheck d (one_inv Accepter d) = true.
+Proof.
+  intros a d. apply (scheck_weaken d (fixed_one_inv Accepter d)); [|apply accept_full_checked].
+  apply inv_and_member. simpl; tauto.
+Qed.
